@@ -109,6 +109,57 @@ def classify(pid, ev, clause, exact):
     return None
 
 
+def rewrite_catalogue(tier):
+    """K3: TLC checks the catalogue of rewrite rules (spec/Rewrites.tla) for all operand values at widths <= MaxW and
+    refutes the three negative controls.  Returns evidence; a rule with counterexamples is a *predicted* defect
+    (reported as drift, the verdict on the code comes from the trace validation)."""
+    import re
+    import tempfile
+    d = tempfile.mkdtemp(prefix="rw-", dir=C.scratch())
+    cfg = os.path.join(d, "Rewrites.cfg")
+    with open(cfg, "w") as f:
+        f.write("CONSTANTS\n MaxW = %d\n" % (3 if tier == "quick" else 4))
+    rc, out = C.run_tlc("Rewrites.tla", cfg=cfg, timeout=1500)
+    rules = re.findall(r'<<"RULE", "(\w+)", (\d+), (\d+)>>', out)
+    ctl = re.search(r'<<"CONTROL", (\d+), (\d+), (\d+)>>', out)
+    if not rules or not ctl or '<<"DONE"' not in out:
+        raise C.MachineryError("Rewrites.tla did not complete:\n" + out[-2000:])
+    failing = sorted({r for r, w, n in rules if int(n) > 0})
+    return {"rules": len({r for r, _, _ in rules}), "obligations": len(rules), "failing_rules": failing,
+            "negative_controls_counterexamples": [int(x) for x in ctl.groups()]}
+
+
+def fpstr_outcomes(R, tier, seed):
+    """C04: constructions over floats and strings (NaN, infinities, metacharacters, extreme indices).  The FP / string
+    engines record the outcome symbol of every folded construction; here only their clause "outcome" is taken (values
+    are C02 / C03).  Known failing inputs are the same exact sets (the signature contains the clause)."""
+    from . import eng_fp, eng_str
+    n = 0
+    for eng, pid2 in ((eng_fp, "C02"), (eng_str, "C03")):
+        jobs = []
+        for j in eng.jobs_for(tier, seed):
+            j = dict(j)
+            if j.get("group") in ("arith", "cmp", "d2") and tier == "quick":
+                continue                     # value-heavy groups: their outcomes are covered by the unary/conversion pools
+            j["solved"] = 0
+            j["fresh_every"] = 0
+            jobs.append(j)
+        bad, stats = C.pipeline(eng.W.__name__.split(".")[-1], jobs, eng.TLA)
+        st = C.merge_stats(stats)
+        n += st["events"]
+        exact = C.load_set(f"{pid2}-exact.txt") | (C.load_set(f"{pid2}-exact-thorough.txt") if tier == "thorough" else set())
+        for jx, ev, clause, _x in bad:
+            if clause != "outcome":
+                continue
+            sgn = eng.signature(ev, clause)
+            if sgn in exact and not jobs[jx].get("rand"):
+                g = eng.group_of(ev, clause)
+                R.add_known(g.replace(pid2, "C04"), eng.GROUP_WHAT[g])
+                continue
+            R.add_violation({"property": "C04", "clause": "outcome", "engine": pid2, "outcome": ev.get("out"), "event": ev})
+    return n
+
+
 def check(pid, tier, regen=False):
     seed = C.seed()
     level = {"C01": "translation_validation", "C04": "exploration", "C05": "exploration"}[pid]
@@ -142,6 +193,8 @@ def check(pid, tier, regen=False):
             if so == "spec-suspect":
                 raise C.MachineryError("spec and Z3 disagree on " + json.dumps(payload)[:1500])
         R.add_violation(payload)
+    n_fpstr = fpstr_outcomes(R, tier, seed) if pid == "C04" and not regen else 0
+    cat = rewrite_catalogue(tier) if pid == "C01" else None
     if regen:
         with open(os.path.join(C.VERIF, "findings", f"{pid}-exact.txt"), "w") as f:
             for s in sorted(new_exact):
@@ -160,8 +213,13 @@ def check(pid, tier, regen=False):
         "exhaustive": False,
         "exhaustive_scopes": "W=1 depth<=2 all terms; W=2,3 depth 1 all terms" + ("; W=2,3 depth 2 all" if tier == "thorough" else "; W=2 depth 2 1/2 sample, W=3 depth 2 1/16 sample (seeded)"),
         "known_instances": n_known,
-        "tlc_module": "TraceExpr.tla (Term.tla, BVBits.tla)",
+        "fp_string_constructions": n_fpstr,
+        "tlc_module": "TraceExpr.tla (Term.tla, BVBits.tla)" + (", TraceFP.tla, TraceStr.tla (outcome clause)" if n_fpstr else ""),
     }
+    if cat:
+        R.coverage["rewrite_catalogue"] = cat
+        if cat["failing_rules"]:
+            R.notes.append("SPEC-DRIFT: catalogue rules with counterexamples: %s" % cat["failing_rules"])
     R.assumptions = ["TLC evaluates spec/Term.tla correctly", "assignments are exhaustive up to 10 variable bits, "
                      "24 sampled (edge + random) above", "Z3 used only as second opinion / translation binding"]
     return R.finish()
